@@ -4,6 +4,8 @@ import (
 	"context"
 	"encoding/json"
 	"fmt"
+	"runtime"
+	"strings"
 	"time"
 
 	"github.com/samsarahq/thunder/diff"
@@ -241,6 +243,26 @@ func (v *view) runsInFlight() (bool, string) {
 	return false, ""
 }
 
+// stacks returns the goroutines that are inside thunder or the harness resolvers (diagnosis of a wait
+// that timed out).
+func stacks() string {
+	buf := make([]byte, 1<<20)
+	buf = buf[:runtime.Stack(buf, true)]
+	var keep []string
+	for _, g := range strings.Split(string(buf), "\n\n") {
+		if strings.Contains(g, "thunder/reactive") || strings.Contains(g, "thunder/graphql") {
+			if len(g) > 1500 {
+				g = g[:1500]
+			}
+			keep = append(keep, g)
+		}
+		if len(keep) >= 12 {
+			break
+		}
+	}
+	return "\n--- goroutines ---\n" + strings.Join(keep, "\n\n")
+}
+
 // ---- playing a case ----
 
 type player struct {
@@ -285,7 +307,7 @@ func (p *player) waitFor(what string, cond func(*view) (bool, string)) bool {
 		}
 		t.Stop()
 	}
-	p.problem("harness-wait-timeout", what+": "+why)
+	p.problem("harness-wait-timeout", what+": "+why+stacks())
 	p.timeout = 300 * time.Millisecond // the case is already lost; do not wait long again
 	return false
 }
